@@ -289,4 +289,50 @@ theorem emit_recv (p : Inst) (f : Frame) (rest : List SrcEv)
         · simpa using congrArg Prod.snd hreply
         · rw [hal']
 
+
+/-! ### successive requests of a session -/
+
+/-- a request as the caller asks for it -/
+inductive Req
+  | read (s16 : Bool) (a n : Nat)
+  | write (s16 : Bool) (a n : Nat) (buf : List Octet)
+
+/-- one request emitter call: what is sent and the session counter afterwards -/
+def emitReq (c : Cfg) (snk : Snk) (seq : Nat) : Req → Sent × Nat
+  | .read s16 a n => regp_req_read c snk seq s16 a n
+  | .write s16 a n buf => regp_req_write c snk seq s16 a n buf
+
+/-- a session: the counter the instance keeps is handed from each request to the next -/
+def session (c : Cfg) (snk : Snk) : Nat → List Req → List Sent
+  | _, [] => []
+  | seq, r :: rest => (emitReq c snk seq r).1 :: session c snk (emitReq c snk seq r).2 rest
+
+/-- successive requests of a session carry sequence numbers increasing by one modulo 2^16: the k-th request is
+    emitted exactly as a single request with sequence number (start + k) mod 2^16 - whose wire image
+    `req_read_wire` / `req_write_wire` give -/
+theorem session_sequence (c : Cfg) (snk : Snk) (reqs : List Req) :
+    ∀ (seq0 k : Nat) (r : Req), seq0 < 65536 → reqs[k]? = some r →
+      (session c snk seq0 reqs)[k]? = some (emitReq c snk ((seq0 + k) % 65536) r).1 := by
+  induction reqs with
+  | nil => intro seq0 k r _ h; simp at h
+  | cons x rest ih =>
+    intro seq0 k r h0 h
+    cases k with
+    | zero =>
+      simp only [List.getElem?_cons_zero, Option.some.injEq] at h
+      subst h
+      simp only [session, List.getElem?_cons_zero, Nat.add_zero, Nat.mod_eq_of_lt h0]
+    | succ k =>
+      simp only [List.getElem?_cons_succ] at h
+      have hnext : (emitReq c snk seq0 x).2 = (seq0 + 1) % 65536 := by
+        cases x <;> rfl
+      simp only [session, List.getElem?_cons_succ, hnext]
+      rw [ih ((seq0 + 1) % 65536) k r (Nat.mod_lt _ (by omega)) h]
+      have : ((seq0 + 1) % 65536 + k) % 65536 = (seq0 + (k + 1)) % 65536 := by omega
+      rw [this]
+
+/-- in particular the counter wraps from 0xffff to 0 -/
+example : (emitReq c snk 65535 (.read false 0 1)).2 = 0 := rfl
+
+
 end Ufw.Props.C08
